@@ -268,6 +268,9 @@ class Filer(hioing.Mixin):
         if os.path.isabs(base):
             raise hioing.FilerError(f"Not relative {base=} path.")
 
+        if os.pardir in name.split(os.sep) + base.split(os.sep):  # would escape head
+            raise hioing.FilerError(f"Parent dir segment in {name=} or {base=} path.")
+
         file = None
         temp = True if temp else False
 
